@@ -164,6 +164,36 @@ def kidsOf (f : Forest) (p : Nat) : List HTree :=
 
 end Forest
 
+/-! ### String values (for C05's "the concatenated character data of every ancestor") -/
+
+/-- The character data a node contributes itself. -/
+def Value.textStr : Value → Str
+  | .text s => s
+  | _ => []
+
+namespace HTree
+mutual
+  /-- The string value of a node: the character data of all text nodes in its subtree, in order. -/
+  def text : HTree → Str
+    | node _ v ks => v.textStr ++ textList ks
+  def textList : List HTree → Str
+    | [] => []
+    | k :: ks => text k ++ textList ks
+end
+
+mutual
+  /-- (handle, string value) of every node that is not a text node, in document order. -/
+  def strValues : HTree → List (Nat × Str)
+    | node h v ks => (if v.isText then [] else [(h, text (node h v ks))]) ++ strValuesList ks
+  def strValuesList : List HTree → List (Nat × Str)
+    | [] => []
+    | k :: ks => strValues k ++ strValuesList ks
+end
+end HTree
+
+/-- The string value of every non-text node of the store. -/
+def Forest.strValues (f : Forest) : List (Nat × Str) := HTree.strValuesList f.roots
+
 namespace Dest
 open Spec
 
